@@ -519,3 +519,57 @@ Proof.
   fold s in Hn. cbn [init v_n] in Hn.
   inv_fields HI. rewrite <- Hn. repeat split; auto. lia.
 Qed.
+
+(* ---- raising callbacks (C19) ---------------------------------------------------- *)
+
+(* a crashed worker stays crashed, and every raising item that was handed out has
+   left a worker with exit status 1: the information a caller needs is there *)
+Definition crash_recorded (bad : nat -> bool) (s : vstate) : Prop :=
+  (exists i, i < nrecv s /\ bad i = true) -> exists w, nth_error (ws s) w = Some (WExited 1).
+
+Lemma crash_recorded_step bad par s a :
+  Inv bad par s -> crash_recorded bad s -> crash_recorded bad (step bad s a).
+Proof.
+  intros HI Hc. unfold step. destruct (enabled_b s a) eqn:En; cbn [negb]; [|exact Hc].
+  pose proof (i_fixed _ _ _ HI) as Hfx.
+  destruct a as [| | | | | |w|w|w|w]; unfold enabled_b in En; unfold crash_recorded in *; fin;
+    try exact Hc; try (unfold upd_pc; fin; exact Hc).
+  - unfold get_w in En. destruct (nth_error (ws s) w) as [[|seen|c]|] eqn:Ew; try discriminate.
+    pose proof (nth_error_lt _ _ _ Ew) as Hwl.
+    intros (i & Hi & Hb). destruct (bad (nrecv s)) eqn:Eb.
+    + exists w. rewrite nth_error_set_w_eq by assumption. reflexivity.
+    + assert (Hi' : i < nrecv s).
+      { destruct (Nat.eq_dec i (nrecv s)) as [->|]; [congruence|lia]. }
+      destruct (Hc (ex_intro _ i (conj Hi' Hb))) as (w' & Hw').
+      exists w'. destruct (Nat.eq_dec w' w) as [->|Hne]; [congruence|].
+      rewrite nth_error_set_w_neq by assumption. exact Hw'.
+  - unfold get_w in *. destruct (nth_error (ws s) w) as [[|seen|c]|] eqn:Ew; try discriminate.
+    pose proof (nth_error_lt _ _ _ Ew) as Hwl. unfold upd_ws. fin.
+    intros H. destruct (Hc H) as (w' & Hw').
+    exists w'. destruct (Nat.eq_dec w' w) as [->|Hne]; [congruence|].
+    rewrite nth_error_set_w_neq by assumption. exact Hw'.
+  - unfold get_w in *. destruct (nth_error (ws s) w) as [[|seen|c]|] eqn:Ew; try discriminate.
+    pose proof (nth_error_lt _ _ _ Ew) as Hwl. unfold upd_ws. fin.
+    intros H. destruct (Hc H) as (w' & Hw').
+    exists w'. destruct (Nat.eq_dec w' w) as [->|Hne]; [congruence|].
+    rewrite nth_error_set_w_neq by assumption. exact Hw'.
+Qed.
+
+Theorem crash_visible bad n par cap pcap (l : list act) :
+  1 <= par ->
+  let s := run bad (init n par cap pcap true) l in
+  (exists i, i < nrecv s /\ bad i = true) <-> (exists w, nth_error (ws s) w = Some (WExited 1)).
+Proof.
+  intros Hpar s. split.
+  - subst s. revert Hpar. generalize (inv_init bad n par cap pcap).
+    assert (H0 : crash_recorded bad (init n par cap pcap true)).
+    { intros (i & Hi & _). cbn in Hi. lia. }
+    revert H0. generalize (init n par cap pcap true) as s0.
+    induction l as [|a l IH]; intros s0 Hc HI Hpar; [exact Hc|].
+    cbn [run fold_left]. apply IH; auto.
+    + apply crash_recorded_step with par; assumption.
+    + apply inv_step; assumption.
+  - intros (w & Hw).
+    pose proof (inv_reachable bad n par cap pcap l Hpar) as HI. fold s in HI.
+    destruct (i_exit_code _ _ _ HI _ _ Hw) as [E|[_ H]]; [discriminate|exact H].
+Qed.
